@@ -24,6 +24,7 @@ TARGETS = [
     ("from_dimacs", "repr::cnf::Cnf", ("clauses", "lits(")),
     ("from_dimacs", "repr::logical_expr::LogicalExpr", ("clauses", "lits(")),
     ("from_cnf", "repr::dtree::DTree", ("clauses(",)),
+    ("to_dimacs", "repr::cnf::Cnf", ("clauses",)),
 ]
 DROPPING = ("filter", "filter_map", "skip", "skip_while", "take", "take_while", "step_by", "dedup", "dedup_by",
             "dedup_by_key", "map_while", "scan")
@@ -44,6 +45,36 @@ def run(prog):
         n = 0
         for g in _bodies(prog, fn):
             te, cfg = g.terms, g.cfg
+            bufs, pushed = buffers(g)
+            # ---- a buffer starts every iteration empty
+            for v, (h, w) in sorted(bufs.items()):
+                body = cfg.loop_headers[h]
+                if (h, v) not in te.mu_init:
+                    continue
+                pb = {cs.bb for cs in pushed[v] if cs.bb in body}
+                empt = {cs.bb for cs in te.calls if cs.bb in body and _recv(cs) == v and _is_emptying(cs)}
+                # re-created: the local is assigned as a whole inside the body (let mut v = Vec::new())
+                for b in body:
+                    t_ = g.blocks[b]["term"]
+                    if t_["k"] == "call" and t_["dest"]["l"] == v and not t_["dest"]["proj"]:
+                        empt.add(b)
+                    for st in g.blocks[b]["stmts"]:
+                        if st["k"] == "assign" and st["lhs"]["l"] == v and not st["lhs"].get("proj"):
+                            empt.add(b)
+                part = {cs.bb for cs in te.calls if cs.bb in body and _recv(cs) == v and cs.callee.name in PARTIAL and not _is_emptying(cs)}
+                name = g.local_name(v) or "_%d" % v
+                key = "%s:buffer@%s" % (fn.npath, name)
+                n_buf = True
+                if _path(cfg, body, pb, pb, empt | part, via=h):
+                    out.append(inst("NC", key, VIOLATION, g, None,
+                                    "`%s` collects the parts of one item and is carried over to the next iteration: on some path it "
+                                    "is filled, consumed into `%s` and filled again without having been emptied (clear, drain(..), a "
+                                    "fresh Vec), so the previous item's parts become part of the next item"
+                                    % (name, g.local_name(w) or "_%d" % w)))
+                elif _path(cfg, body, pb, pb, empt, via=h):
+                    out.append(inst("NC", key, UNDECIDED, g, None, "`%s` is only partly emptied (pop/remove/…) on some path between two items" % name))
+                else:
+                    out.append(inst("NC", key, OK, g, None, "`%s` is emptied or re-created between any two items" % name))
             # ---- loop form
             for h, body in sorted(cfg.loop_headers.items()):
                 its = [cs for cs in te.calls if cs.bb in body and cs.callee.name == "next" and cs.args and
@@ -59,7 +90,7 @@ def run(prog):
                 for cs in te.calls:
                     if cs.bb in body and cs.callee.name in ("push", "push_back", "insert", "extend") and cs.args:
                         r = strip(cs.args[0])
-                        if r[0] == "mutref" and (h, r[1]) in te.mu_init:
+                        if r[0] == "mutref" and (h, r[1]) in te.mu_init and not (r[1] in bufs and bufs[r[1]][0] == h):
                             # the accumulator is carried by *this* loop, not re-created in each iteration
                             init = strip(te.mu_init[(h, r[1])])
                             inner = [h2 for h2, b2 in cfg.loop_headers.items() if h2 != h and h2 in body and (h2, r[1]) in te.mu_init
@@ -67,7 +98,28 @@ def run(prog):
                             if not inner:
                                 pushes.setdefault(r[1], set()).add(cs.bb)
                 if not pushes:
-                    continue     # a fold, not a transforming loop
+                    # an accumulator that is re-assigned rather than pushed onto (r = format!("{r}\n{clause} 0")): the
+                    # value carried to the next iteration is built from the previous one on every path
+                    accs = []
+                    for (h2, l), ups in te.mu_update.items():
+                        if h2 != h or te.ret is None or ("mu", h, l) not in set(mir.subterms(te.ret)) | {strip(te.ret)}:
+                            continue
+                        if any(any(x == ("mu", h, l) for x in mir.subterms(u)) and strip(u) != ("mu", h, l) for u in ups):
+                            accs.append((l, ups))
+                    if not accs:
+                        continue     # a fold over numbers or nothing returned: not a transforming loop
+                    n += 1
+                    key = "%s:loop@%s" % (fn.npath, _src_name(src))
+                    bad = []
+                    for l, ups in accs:
+                        for u in ups:
+                            if any(strip(x) == ("mu", h, l) for x in _alts(u)):
+                                bad.append(g.local_name(l) or "_%d" % l)
+                    out.append(inst("NC", key, VIOLATION if bad else OK, g, None,
+                                    ("an iteration over %s can leave the accumulator `%s` as it was: that item of the input is "
+                                     "dropped from the output" % (_src_name(src), bad[0])) if bad else
+                                    "every iteration over %s extends its accumulator" % _src_name(src)))
+                    continue
                 n += 1
                 key = "%s:loop@%s" % (fn.npath, _src_name(src))
                 bad = []
@@ -106,14 +158,110 @@ def run(prog):
                                     % (_src_name(t), ", ".join(reversed(chain)) or "-")))
         # ---- the collected items are not thinned out afterwards
         for g in _bodies(prog, fn):
+            bufs = buffers(g)[0]
             for cs in g.terms.calls:
-                if cs.callee.name in SHRINKING and cs.args and "Vec" in cs.callee.key():
+                if cs.callee.name in SHRINKING and cs.args and "Vec" in cs.callee.key() and _recv(cs) not in bufs:
                     out.append(inst("NC", "%s:shrunk@%s" % (fn.npath, cs.callee.name), VIOLATION, g, cs.line,
                                     "the collected items are thinned out by `%s` (%s): items of the input are dropped (the result "
                                     "then has extra models)" % (cs.callee.name, show(cs.args[0])[:40])))
         if n == 0:
             out.append(inst("NC", "%s:items" % fn.npath, UNDECIDED, fn, None, "no loop or iterator chain over %s recognised" % (markers,)))
     return out
+
+
+PUSHING = ("push", "push_back", "insert", "extend", "extend_from_slice", "append")
+EMPTYING = ("clear", "take")          # plus drain(..) and truncate(0), recognised by their arguments
+PARTIAL = ("pop", "remove", "swap_remove", "truncate", "drain", "retain", "retain_mut", "dedup", "dedup_by", "dedup_by_key", "split_off")
+
+
+def _recv(cs):
+    if not cs.args:
+        return None
+    r = strip(cs.args[0])
+    return r[1] if isinstance(r, tuple) and r and r[0] == "mutref" else None
+
+
+def _mentions(te, t, depth=3):
+    """locals a value is built from, looking through loop-carried values"""
+    out, todo, seen = set(), [(t, depth)], set()
+    while todo:
+        x, d = todo.pop()
+        for y in mir.subterms(x):
+            if y[0] in ("mutref", "ref") and isinstance(y[1], int):
+                out.add(y[1])
+            elif y[0] == "mu":
+                out.add(y[2])
+                if d > 0 and (y[1], y[2]) not in seen:
+                    seen.add((y[1], y[2]))
+                    if (y[1], y[2]) in te.mu_init:
+                        todo.append((te.mu_init[(y[1], y[2])], d - 1))
+                    for u in te.mu_update.get((y[1], y[2]), []):
+                        todo.append((u, d - 1))
+    return out
+
+
+def _is_emptying(cs):
+    nm = cs.callee.name
+    if nm in EMPTYING:
+        return True
+    if nm == "drain" and len(cs.args) == 2 and "RangeFull" in show(cs.args[1]):
+        return True
+    if nm in ("truncate", "split_off") and len(cs.args) == 2 and show(strip(cs.args[1])) == "0":
+        return True
+    return False
+
+
+def buffers(g):
+    """vectors that are filled and then *consumed into another vector* inside one loop: {buffer local: (loop header, fed local)}.
+    They hold the parts of one item (the literals of one clause); the result accumulators are the vectors they feed."""
+    te, cfg = g.terms, g.cfg
+    pushed = {}
+    for cs in te.calls:
+        if cs.callee.name in PUSHING and _recv(cs) is not None:
+            pushed.setdefault(_recv(cs), []).append(cs)
+    out = {}
+    for w, css in pushed.items():
+        for cs in css:
+            for a in cs.args[1:]:
+                for v in _mentions(te, a):
+                    if v != w and v in pushed:
+                        # the innermost loop that contains both the feeding push and a push onto the buffer
+                        hs = [h for h, body in cfg.loop_headers.items() if cs.bb in body and any(c.bb in body for c in pushed[v])]
+                        if hs:
+                            h = min(hs, key=lambda h_: len(cfg.loop_headers[h_]))
+                            out[v] = (h, w)
+    return out, pushed
+
+
+def _path(cfg, body, starts, goals, avoid, via=None):
+    """is there a walk inside `body` from a successor of a start block to a goal block that avoids `avoid`
+    (and, if given, passes the block `via`)?"""
+    def reach(srcs, stop):
+        seen, stack = set(), list(srcs)
+        while stack:
+            x = stack.pop()
+            if x in seen or x not in body or x in stop:
+                continue
+            seen.add(x)
+            stack.extend(cfg.succ[x])
+        return seen
+    first = reach([s for b in starts for s in cfg.succ[b]], avoid)
+    if via is None:
+        return bool(first & set(goals))
+    if via not in first:
+        return False
+    second = reach(cfg.succ[via], avoid)
+    return bool(second & set(goals))
+
+
+def _alts(t):
+    t = strip(t)
+    if isinstance(t, tuple) and t and t[0] in ("phi", "gamma"):
+        out = []
+        for _, v in t[2]:
+            out += _alts(v)
+        return out
+    return [t]
 
 
 def _src_name(t):
